@@ -1,7 +1,7 @@
 --------------------------- MODULE MCReceiverSet ---------------------------
 EXTENDS ReceiverSet, Json
 
-Quiet == /\ \A m \in Members : spc[m] = "done"
+Quiet == /\ \A m \in Members : spc[m] \in {"done", "dead"}
          /\ pc = "idle" /\ pi > Len(Prog) /\ inset = {}
 
 Export == Quiet => PrintT("@@" \o ToJson([sched |-> sched, log |-> log, selects |-> selects]))
